@@ -262,6 +262,7 @@ pub fn run(cx: &mut Cx) {
     }
     cx.ev.require("match/ops1/same/true");
     cx.ev.require("workload/dialect-pair");
+    cx.ev.require("workload/revision-cluster");
     cx.ev.require("match/ops2/same/true");
     cx.ev.require("match/ops2/same/false");
 
@@ -287,6 +288,19 @@ pub fn run(cx: &mut Cx) {
             r.pick(&BASES).to_string()
         };
         let ops = opseq(&mut r);
+        // one case in twelve takes its bounds and most of its versions from one
+        // revision cluster (one stem, every short tail behind "nb")
+        let cluster: Option<Vec<String>> = if r.chance(1, 12) {
+            let stem = if r.chance(1, 2) { format!("{}.{}", r.below(3), r.below(3)) } else { gv::v_safe(&mut r) };
+            let c: Vec<String> = gv::revision_cluster(&stem).into_iter().filter(|v| !v.contains('=')).collect();
+            if c.is_empty() {
+                None
+            } else {
+                Some(c)
+            }
+        } else {
+            None
+        };
         let mut base_used = base.clone();
         let mut pat = base.clone();
         let mut bounds = vec![];
@@ -306,12 +320,17 @@ pub fn run(cx: &mut Cx) {
                     6 => format!("{first}{}", r.pick(&["rc1", "alpha", "nb1", "nb2", ".1", "pre2"])),
                     _ => first.strip_suffix(".0").map(|x| x.to_string()).unwrap_or_else(|| format!("{first}pl0")),
                 }
+            } else if let Some(c) = &cluster {
+                r.pick(c).clone()
             } else {
                 bound(&mut r)
             };
             pat.push_str(op.text());
             pat.push_str(&b);
             bounds.push(b);
+        }
+        if cluster.is_some() {
+            cx.ev.count("workload/revision-cluster");
         }
         if !ops.is_empty() && r.chance(1, 10) {
             // the operators inside a pair of the other dialects' characters
@@ -356,7 +375,9 @@ pub fn run(cx: &mut Cx) {
         for _ in 0..k {
             let (b2, rel) = related_base(&mut r, &base_used);
             // versions near the bounds so that both verdicts occur
-            let v = if !bounds.is_empty() && r.chance(2, 3) {
+            let v = if cluster.is_some() && r.chance(2, 3) {
+                r.pick(cluster.as_ref().unwrap()).clone()
+            } else if !bounds.is_empty() && r.chance(2, 3) {
                 let b = r.pick(&bounds).clone();
                 match r.below(9) {
                     0..=2 => b,
